@@ -27,7 +27,8 @@ type Layout struct {
 
 func Canon() *Layout { return &Layout{EOL: "\n", Unit: "  ", FinalNL: true} }
 
-func (l *Layout) choose(kind string, n int) int {
+// Choose takes the next layout choice (0 = canonical).
+func (l *Layout) Choose(kind string, n int) int {
 	if n <= 1 {
 		return 0
 	}
@@ -88,9 +89,22 @@ type renderer struct {
 	idSeq map[string]int
 }
 
-// Render writes the forest rooted in file root.
+// Reset restarts the choice sequence (call before building a tree under this layout).
+func (l *Layout) Reset() { l.pos, l.Trace, l.Taken = 0, nil, nil }
+
+// Cost is the number of non-canonical choices taken so far.
+func (l *Layout) Cost() int {
+	c := 0
+	for _, t := range l.Taken {
+		if t != 0 {
+			c++
+		}
+	}
+	return c
+}
+
+// Render writes the forest; it continues the layout's choice sequence (call Reset first when starting afresh).
 func Render(root *File, l *Layout) *Rendered {
-	l.pos, l.Trace, l.Taken = 0, nil, nil
 	r := &renderer{l: l, out: &Rendered{Files: map[string]string{}, Root: root.Name, Lex: map[string][]XLex{}, Locs: map[string]Loc{}, BodyLocs: map[string]Loc{}, Explicit: map[*Node]bool{}}, idSeq: map[string]int{}}
 	r.file(root)
 	return r.out
@@ -149,11 +163,11 @@ func (r *renderer) node(fb *fileBuf, n *Node, depth int) {
 	ind := strings.Repeat(l.Unit, depth)
 	// separator before the directive
 	if fb.afterText {
-		if l.choose("sep-after-text", 2) == 1 {
+		if l.Choose("sep-after-text", 2) == 1 {
 			r.eol(fb)
 		}
 	} else {
-		switch l.choose("sep", 5) {
+		switch l.Choose("sep", 5) {
 		case 1:
 			r.eol(fb)
 		case 2:
@@ -178,13 +192,13 @@ func (r *renderer) node(fb *fileBuf, n *Node, depth int) {
 	r.recordLoc(r.out.Locs, n.ID, Loc{File: fb.name, Line: fb.line, Index: kb})
 	// parameters
 	for _, p := range n.Params {
-		if l.choose("blank", 2) == 1 {
+		if l.Choose("blank", 2) == 1 {
 			fb.w(" \t ")
 		} else {
 			fb.w(" ")
 		}
 		txt := p
-		if needsQuote(p) || l.choose("quote", 2) == 1 {
+		if needsQuote(p) || l.Choose("quote", 2) == 1 {
 			txt = quote(p)
 		}
 		pb := fb.b.Len()
@@ -194,7 +208,7 @@ func (r *renderer) node(fb *fileBuf, n *Node, depth int) {
 	// annotation
 	annStyle := 0
 	if n.Ann != "" {
-		annStyle = l.choose("ann", 3)
+		annStyle = l.Choose("ann", 3)
 		switch annStyle {
 		case 0:
 			fb.w(" //")
@@ -219,7 +233,7 @@ func (r *renderer) node(fb *fileBuf, n *Node, depth int) {
 	}
 	// trailing blanks / comment on the keyword line
 	if annStyle == 0 {
-		switch l.choose("trail", 3) {
+		switch l.Choose("trail", 3) {
 		case 1:
 			if n.Ann != "" {
 				// blanks at the end of a // annotation belong to the annotation lexeme (trimmed later by the catalog)
@@ -246,7 +260,7 @@ func (r *renderer) node(fb *fileBuf, n *Node, depth int) {
 	}
 	explicit := n.Explicit
 	if !explicit && !n.NoExplicit && n.Body != TextBody {
-		explicit = l.choose("explicit", 2) == 1
+		explicit = l.Choose("explicit", 2) == 1
 	}
 	if explicit {
 		r.out.Explicit[n] = true
@@ -260,16 +274,16 @@ func (r *renderer) node(fb *fileBuf, n *Node, depth int) {
 	if n.Body != NoBody {
 		alt := 0
 		if len(n.BodyAlts) > 1 {
-			alt = l.choose("body", len(n.BodyAlts))
+			alt = l.Choose("body", len(n.BodyAlts))
 		}
 		lines := n.BodyAlts[alt]
-		if n.Body != TextBody && l.choose("prebody", 2) == 1 {
+		if n.Body != TextBody && l.Choose("prebody", 2) == 1 {
 			r.eol(fb)
 		}
 		bind := strings.Repeat(l.Unit, depth+1)
 		if n.Body == TextBody {
 			// free text; optional own parentheses
-			paren := l.choose("textparen", 2) == 1
+			paren := l.Choose("textparen", 2) == 1
 			tb := fb.b.Len()
 			if paren {
 				fb.w(ind + "(")
@@ -334,7 +348,7 @@ func (r *renderer) node(fb *fileBuf, n *Node, depth int) {
 // EnumLayouts calls fn for every layout of root within the deviation bound (number of non-canonical per-site choices),
 // using the stateless-exploration idiom: render with a prefix of choices, canonical afterwards, then branch later sites.
 // base supplies the global options. fn may return false to stop.
-func EnumLayouts(root *File, base Layout, bound int, fn func(r *Rendered, l *Layout) bool) int {
+func EnumLayouts(build func(l *Layout) *File, base Layout, bound int, fn func(f *File, r *Rendered, l *Layout) bool) int {
 	count := 0
 	stop := false
 	var rec func(prefix []int, cost int)
@@ -344,9 +358,14 @@ func EnumLayouts(root *File, base Layout, bound int, fn func(r *Rendered, l *Lay
 		}
 		l := base
 		l.Choices = prefix
+		l.Reset()
+		root := build(&l)
+		if root == nil {
+			return
+		}
 		r := Render(root, &l)
 		count++
-		if !fn(r, &l) {
+		if !fn(root, r, &l) {
 			stop = true
 			return
 		}
